@@ -24,11 +24,11 @@ EXPLANATION = (
     "esi, edi) and odd halves (five stack slots) interleave to ref_round of the previous cut. The three RISC-V ASSEMBLY "
     "permutations (RV64I; RV32I and RV32E in the bit-sliced layout, RV32E keeping the odd halves in the state memory) and "
     "the AArch64 ASSEMBLY permutation (tools/lift_arm64.py; the upper bits of the argument register are arbitrary, as AAPCS64 "
-    "allows) and the ARMv6 / ARMv7-M / ARMv6-M ASSEMBLY permutations (tools/lift_arm32.py; bit-sliced halves in low / high registers) and the Xtensa and m68k permutations (tools/lift_xtensa.py, tools/lift_m68k.py) are lifted and "
+    "allows) and the ARMv6 / ARMv7-M / ARMv6-M ASSEMBLY permutations (tools/lift_arm32.py; bit-sliced halves in low / high registers) and the Xtensa, m68k and AVR5 permutations (tools/lift_xtensa.py, lift_m68k.py, lift_avr.py) are lifted and "
     "proved the same way."
 )
 ASSUMPTIONS = [
-    "x86-64 assembly: verified through tools/lift_x86_64.py (trusted: its instruction table for movq/xorq/andq/notq/rorq/pushq/popq/cmpq+jge/jmp/ret and the leaq-movslq-addq-jmp* jump-table idiom; System V argument registers, first_round arriving zero-extended in rsi; gas assembling the text it is given; only the Linux/ELF preprocessor variant of prologue/epilogue). i386 assembly: through tools/lift_i386.py (trusted: its table for movl/xorl/andl/notl/rorl/pushl/popl/cmpl+je/jmp/ret, static %esp tracking, cdecl). RISC-V assembly: through tools/lift_riscv.py (trusted: its table for ld/lw/sd/sw/not/li/xor/or/and/xori/slli/srli/addi sp/beq/j/ret, static sp tracking, the psABI). AArch64: tools/lift_arm64.py (ldr/ldp/str/stp/mov/mvn/eor/bic with ror-shifted operand/ror/cmp+beq/b/ret, AAPCS64). ARMv6 / ARMv7-M / ARMv6-M: tools/lift_arm32.py (push/pop/ldr/str incl. sp-relative/mov/mvn/eor/and/bic with ror-shifted operand/rors by register/lsls/cmp+beq,bhi/b/bl as far branch/the adr-ldr-add-mov pc jump-table idiom, flag-setting forms as plain forms, AAPCS32). Xtensa (call0 ABI variant): tools/lift_xtensa.py (l32i/s32i/movi/mov/xor/and/ssai+src funnel shift/beqi/beqz/beq/j/ret). m68k: tools/lift_m68k.py (link/unlk/rts, move.l/movea.l/moveq.l, not/eor/eori/and, ror by immediate or register, cmpi+jbeq, jmp; cdecl). The AVR5 assembly backend is not covered",
+    "x86-64 assembly: verified through tools/lift_x86_64.py (trusted: its instruction table for movq/xorq/andq/notq/rorq/pushq/popq/cmpq+jge/jmp/ret and the leaq-movslq-addq-jmp* jump-table idiom; System V argument registers, first_round arriving zero-extended in rsi; gas assembling the text it is given; only the Linux/ELF preprocessor variant of prologue/epilogue). i386 assembly: through tools/lift_i386.py (trusted: its table for movl/xorl/andl/notl/rorl/pushl/popl/cmpl+je/jmp/ret, static %esp tracking, cdecl). RISC-V assembly: through tools/lift_riscv.py (trusted: its table for ld/lw/sd/sw/not/li/xor/or/and/xori/slli/srli/addi sp/beq/j/ret, static sp tracking, the psABI). AArch64: tools/lift_arm64.py (ldr/ldp/str/stp/mov/mvn/eor/bic with ror-shifted operand/ror/cmp+beq/b/ret, AAPCS64). ARMv6 / ARMv7-M / ARMv6-M: tools/lift_arm32.py (push/pop/ldr/str incl. sp-relative/mov/mvn/eor/and/bic with ror-shifted operand/rors by register/lsls/cmp+beq,bhi/b/bl as far branch/the adr-ldr-add-mov pc jump-table idiom, flag-setting forms as plain forms, AAPCS32). Xtensa (call0 ABI variant): tools/lift_xtensa.py (l32i/s32i/movi/mov/xor/and/ssai+src funnel shift/beqi/beqz/beq/j/ret). m68k: tools/lift_m68k.py (link/unlk/rts, move.l/movea.l/moveq.l, not/eor/eori/and, ror by immediate or register, cmpi+jbeq, jmp; cdecl). AVR5: tools/lift_avr.py (8-bit registers, carry and T flags as the ISA defines them for the instructions used, ldd/std through Z = the state pointer, cpse as a guard, avr-gcc ABI with r1 == 0); start rounds 0..11 only (the do-while loop of this backend has no zero-round case); quick tier: start rounds 0, 4, 6, 11",
     "byte operations of the 32-bit bit-sliced backend: init, copy (and, thorough tier, add and overwrite) with symbolic offset/size; overwrite_with_zeroes and the extract family by ENUMERATION of constant (offset, size) pairs - all 861 pairs in the thorough tier, a seed-rotated sample of ~30 in the quick tier - because with symbolic offsets the extract family exhausts the solver and ascon_overwrite_with_zeroes hits the CBMC 6.11 union anomaly (state->S[i] = 0 followed by a read through W[] is reported non-zero for offset 12, size 19, although the same pair passes as constants and natively); add/overwrite of this backend are not in the quick tier",
     "start rounds above 12 are outside the contract (the 32-bit backend forms the pointer RC + 2*first_round, which is only defined up to 12)",
 ]
@@ -145,6 +145,18 @@ def m68k_groups(props=("C08",), prefix="c08"):
                   note="cut points at the 13 round labels; link/unlk frame; rotate by register modulo 64")]
 
 
+def avr_groups(props=("C08",), prefix="c08", rounds=range(0, 12)):
+    """AVR5 assembly permutation (byte layout; one do-while loop over the rounds), lifted by tools/lift_avr.py: one group per
+    start round 0..11 (the loop unwinds completely once first_round is fixed)."""
+    sig = ["--fn=ascon_permute:void:ascon_state_t * state,uint8_t first_round", "--fn=ascon_backend_free:void:ascon_state_t * state"]
+    return [Group("%s.permute.avr5_asm.first%d" % (prefix, k), props, "harness/h_permute_asm.c", "h_permute_asm", [], cfg="DX",
+                  enforce="ascon_permute", defs=['VERIF_GHOST_HEADER="ghost_asm_avr.h"', "VERIF_FIRST=%d" % k], unwind=14,
+                  contracts=["contracts/c_permute_enforce.h"], lift=("src/core/ascon-asm-avr5.S", sig), timeout=1800,
+                  functions=["ascon_permute (AVR5 assembly, lifted)"], expect_classes=["postcondition", "assigns", "assertion"],
+                  note="8-bit registers with carry and T flags; cut at the loop head; round loop unwound completely (unwinding assertion)")
+            for k in rounds]
+
+
 def byteop_groups(cfg, props=("C08",), alias=True):
     gs = []
     for f in BYTEOPS:
@@ -200,6 +212,7 @@ def groups(tier):
     gs += arm32_groups()
     gs += xtensa_groups()
     gs += m68k_groups()
+    gs += avr_groups(rounds=(0, 4, 6, 11) if tier == "quick" else range(0, 12))
     for cfg in (["C64"] if tier == "quick" else ["C64", "DX", "DEF"]):
         gs += byteop_groups(cfg)
     if tier == "thorough":
